@@ -182,6 +182,7 @@ def check(chk, repo, tier):
                witness="Þ∞ 0 Ẏ / Þ∞ 1 Ẏ never returns")
     chk.unit("eager-consumption candidate sites examined", n_sites)
 
+    self_declared_lazy(chk, repo)
     next_on_the_list_itself(chk, repo)
     templates_do_not_force(chk, repo)
     popping_does_not_force(chk, repo)
@@ -201,6 +202,81 @@ def check(chk, repo, tier):
         "shows the parameter is a string/number/function; the remaining "
         "sites are a reviewed table. LazyList's own access path pulls only "
         "what is asked for. Does not decide the linear pull bound.")
+
+
+def self_declared_lazy(chk, repo):
+    """Transformations outside the catalogue that declare themselves lazy -
+    they hand a nested generator over an argument back as LazyList(gen()) /
+    @lazylist - must not materialise the same generator (list(gen()),
+    "".join(gen())) on a path where that argument can be a lazy list."""
+    from ..flow import path_conditions
+    from ..lazy import guard_says_not_lazy
+    cat = {(m, f) for m, f, _ in CATALOGUE}
+    n_fn = 0
+    for modname in ("elements", "helpers"):
+        mod = repo.mod(modname)
+        for fname, fn in mod.functions.items():
+            if (modname, fname) in cat:
+                continue
+            gens = {g.name: g for g in ast.walk(fn)
+                    if isinstance(g, ast.FunctionDef) and g is not fn
+                    and any(isinstance(y, (ast.Yield, ast.YieldFrom))
+                            for y in ast.walk(g))}
+            lazy_ret = set()
+            for n in ast.walk(fn):
+                if isinstance(n, ast.Call) and (dotted(n.func) or "").split(
+                        ".")[-1] == "LazyList" and n.args and isinstance(
+                        n.args[0], ast.Call) and isinstance(
+                        n.args[0].func, ast.Name) \
+                        and n.args[0].func.id in gens:
+                    lazy_ret.add(n.args[0].func.id)
+            for g in gens.values():
+                if any((dotted(d) or "").split(".")[-1] == "lazylist"
+                       for d in g.decorator_list):
+                    lazy_ret.add(g.name)
+            if not lazy_ret:
+                continue
+            n_fn += 1
+            for a in fn.args.args:
+                if a.arg in ("ctx", "self"):
+                    continue
+                lv = LazyViews(fn, a.arg, {c: set() for c in LAZY_CALLEES})
+                pos = None
+                for n in ast.walk(fn):
+                    if isinstance(n, ast.Assign) and isinstance(
+                            n.value, ast.Call) and dotted(
+                            n.value.func) == "vy_type":
+                        args = [ast.unparse(x) for x in n.value.args]
+                        if a.arg in args and len(args) > 1:
+                            pos = args.index(a.arg)
+                bad = []
+                for s in lv.sites():
+                    if not any(isinstance(c, ast.Call) and isinstance(
+                            c.func, ast.Name) and c.func.id in lazy_ret
+                            for c in ast.walk(s.node)):
+                        continue
+                    if excluded_by_guard(s.node, fn, a.arg):
+                        continue
+                    if any(guard_says_not_lazy(t, a.arg, pos) is pol
+                           for t, pol in path_conditions(s.node, fn)):
+                        continue
+                    bad.append(s)
+                if not bad:
+                    chk.ob("C14.lazy-result-not-materialised",
+                           f"{modname}.{fname}:{a.arg}", True)
+                for s in bad:
+                    chk.ob("C14.lazy-result-not-materialised",
+                           f"{modname}.{fname}:{a.arg}:{s.desc}", False,
+                           f"{fname} returns its generator lazily on one "
+                           f"path but `{s.desc}` runs the same generator to "
+                           f"the end on a path where `{a.arg}` can still be "
+                           "a lazy list: with an infinite list there the "
+                           "element never returns", mod.rel, s.line,
+                           witness=f"{fname} with an infinite list as "
+                                   f"`{a.arg}`, then take the first item")
+    chk.unit("self-declared lazy transformations outside the catalogue", n_fn)
+    chk.floor("self-declared lazy transformations outside the catalogue",
+              n_fn, 5)
 
 
 def next_on_the_list_itself(chk, repo):
